@@ -1,6 +1,7 @@
 package rules
 
 import (
+	"strings"
 	"fmt"
 	"go/constant"
 	"go/token"
@@ -35,6 +36,11 @@ func runC04(c *engine.Ctx) {
 	r3 := c.Rule("R3", "a pending terminal error is sent before the channels are closed", 1)
 	r4 := c.Rule("R4", "cancel handler sends a cancel request to the request's peer first; cancel API passes client-cancelled; collector reports client-cancelled on context end", 2)
 	r5 := c.Rule("R5", "status predicates: success/failure disjoint, AsError nil iff success (all defined codes); failure statuses cancel with Status().AsError()", 2)
+
+	r6 := c.Rule("R6", "every terminal response status takes the request's loader offline (or tears the request down), so the executor stops waiting for remote data", 3)
+	r7 := c.Rule("R7", "once a new request is handed to the run loop the caller waits for the loop's reply; only the manager's own shutdown interrupts the wait", 1)
+	c04Terminal(c, r6)
+	c04NewRequestWait(c, r7)
 
 	m := loadMgr(c, r1, "requestmanager")
 	if m == nil {
@@ -409,4 +415,188 @@ func sameStatusSource(a, b ssa.Value) bool {
 		return false
 	}
 	return len(ca.Call.Args) > 0 && len(cb.Call.Args) > 0 && engine.SameValue(ca.Call.Args[0], cb.Call.Args[0])
+}
+
+// c04Terminal (R6): for every defined status code that IsTerminal, the handler of incoming terminal statuses has a
+// path that takes the loader offline or terminates the request.  The handler is evaluated in the finite domain with
+// response.Status() fixed to the code (status predicates evaluated on that code, everything else unknown).
+func c04Terminal(c *engine.Ctx, rule string) {
+	codeT := c.P.NamedType("", "ResponseStatusCode")
+	isT := c.P.Func("", "ResponseStatusCode", "IsTerminal")
+	term := c.P.Func("requestmanager", "RequestManager", "terminateRequest")
+	if codeT == nil || isT == nil || term == nil {
+		c.AnchorMissing(rule, "graphsync.ResponseStatusCode.IsTerminal / requestmanager.terminateRequest")
+		return
+	}
+	isOffline := func(in ssa.Instruction) bool {
+		cc, ok := in.(*ssa.Call)
+		if !ok {
+			return false
+		}
+		name := ""
+		if cc.Call.IsInvoke() {
+			name = cc.Call.Method.Name()
+		} else if sc := cc.Call.StaticCallee(); sc != nil {
+			name = sc.Name()
+		}
+		if name != "SetRemoteOnline" {
+			return false
+		}
+		b, ok := engine.ConstBool(cc.Call.Args[len(cc.Call.Args)-1])
+		return ok && !b
+	}
+	// the handler: the requestmanager function that calls SetRemoteOnline(false) under a test of the response's status
+	var handlers []*ssa.Function
+	for _, f := range c.P.FuncsIn("requestmanager") {
+		if engine.FuncPkgPath(f) != engine.Module+"/requestmanager" {
+			continue
+		}
+		hasOff, hasStatus := false, false
+		engine.Instrs(f, func(in ssa.Instruction) {
+			if isOffline(in) {
+				hasOff = true
+			}
+			if cc, ok := in.(*ssa.Call); ok {
+				if sc := cc.Call.StaticCallee(); sc != nil && sc.Name() == "Status" && strings.HasSuffix(engine.FuncPkgPath(sc), "/message") {
+					hasStatus = true
+				}
+			}
+		})
+		if hasOff && hasStatus {
+			handlers = append(handlers, f)
+		}
+	}
+	if len(handlers) == 0 {
+		c.AnchorMissing(rule, "a requestmanager function that takes the loader offline according to the response's status")
+		return
+	}
+	var codes []int64
+	names := map[int64]string{}
+	sc := c.P.TypesPkg("").Scope()
+	for _, n := range sc.Names() {
+		if k, ok := sc.Lookup(n).(*types.Const); ok && types.Identical(k.Type(), codeT) {
+			v, _ := constant.Int64Val(k.Val())
+			codes = append(codes, v)
+			names[v] = n
+		}
+	}
+	sort.Slice(codes, func(i, j int) bool { return codes[i] < codes[j] })
+	liftedOff := engine.LiftMay(func(in ssa.Instruction) bool {
+		if isOffline(in) {
+			return true
+		}
+		cc, ok := in.(*ssa.Call)
+		return ok && cc.Call.StaticCallee() == term
+	})
+	for _, f := range handlers {
+		c.Analysed(engine.FuncName(f))
+		for _, code := range codes {
+			tv := engine.EvalPure(isT, []engine.EVal{{K: engine.EInt, I: code}}, 0)
+			if len(tv) != 1 || tv[0].K != engine.EBool {
+				c.Undecided(rule, engine.FuncName(f)+"|"+names[code], f.Pos(), "cannot evaluate IsTerminal for "+names[code])
+				continue
+			}
+			if !tv[0].B {
+				continue
+			}
+			reached := false
+			ev := &engine.Evaluator{MaxVisits: 2}
+			ev.Input = func(v ssa.Value) (engine.EVal, bool) {
+				if cc, ok := v.(*ssa.Call); ok {
+					if sc := cc.Call.StaticCallee(); sc != nil && sc.Name() == "Status" && strings.HasSuffix(engine.FuncPkgPath(sc), "/message") {
+						return engine.EVal{K: engine.EInt, I: code}, true
+					}
+				}
+				return engine.EVal{}, false
+			}
+			ev.Call = func(call *ssa.Call, get func(ssa.Value) engine.EVal) (engine.EVal, bool) {
+				sc := call.Call.StaticCallee()
+				if sc == nil || sc.Blocks == nil || len(call.Call.Args) != 1 {
+					return engine.EVal{}, false
+				}
+				if rt := sc.Signature.Recv(); rt == nil || !types.Identical(rt.Type(), codeT) {
+					return engine.EVal{}, false
+				}
+				a := get(call.Call.Args[0])
+				if a.K != engine.EInt {
+					return engine.EVal{}, false
+				}
+				rs := engine.EvalPure(sc, []engine.EVal{a}, 0)
+				if len(rs) == 1 {
+					return rs[0], true
+				}
+				return engine.EVal{}, false
+			}
+			ev.Observe = func(in ssa.Instruction, get func(ssa.Value) engine.EVal) {
+				if liftedOff(in) {
+					reached = true
+				}
+			}
+			ev.Run(f)
+			if ev.Aborted {
+				c.Undecided(rule, engine.FuncName(f)+"|"+names[code], f.Pos(), "path bound exceeded while evaluating the terminal-status handler")
+				continue
+			}
+			c.Decide(rule, engine.FuncName(f)+"|"+names[code], f.Pos(), reached,
+				"a response carrying "+names[code]+" takes the request's loader offline (or terminates the request)",
+				"a response carrying the terminal status "+names[code]+" leaves the request's loader online: if the responder sent less than the traversal needs, the executor waits for remote data forever and the result channels never close")
+		}
+	}
+}
+
+// c04NewRequestWait (R7): the select in which NewRequest awaits the run loop's reply has no way out other than the
+// reply itself and the manager's own context.  (If the caller's context could end the wait, a request the loop has
+// already registered would run with nobody collecting its results, sending cancels or reporting the cancellation.)
+func c04NewRequestWait(c *engine.Ctx, rule string) {
+	f := c.P.Func("requestmanager", "RequestManager", "NewRequest")
+	ctxF := c.P.Field("requestmanager", "RequestManager", "ctx")
+	if f == nil || ctxF == nil {
+		c.AnchorMissing(rule, "requestmanager.RequestManager.NewRequest / RequestManager.ctx")
+		return
+	}
+	c.Analysed(engine.FuncName(f))
+	n := 0
+	engine.Instrs(f, func(in ssa.Instruction) {
+		sel, ok := in.(*ssa.Select)
+		if !ok {
+			return
+		}
+		// the reply: a receive from a channel made in this function
+		reply := -1
+		for i, st := range sel.States {
+			if st.Dir == types.RecvOnly {
+				if _, isMk := engine.LocalValue(st.Chan).(*ssa.MakeChan); isMk {
+					reply = i
+				}
+			}
+		}
+		if reply < 0 {
+			return
+		}
+		n++
+		bad := ""
+		if !sel.Blocking {
+			bad = "the wait for the run loop's reply has a default case"
+		}
+		for i, st := range sel.States {
+			if i == reply {
+				continue
+			}
+			okCase := false
+			if st.Dir == types.RecvOnly {
+				if call, isCall := engine.LocalValue(st.Chan).(*ssa.Call); isCall && call.Call.IsInvoke() && call.Call.Method.Name() == "Done" {
+					if fl, _ := engine.LoadedField(call.Call.Value); fl == ctxF {
+						okCase = true
+					}
+				}
+			}
+			if !okCase {
+				bad = "the wait for the run loop's reply can be abandoned by something other than the manager's own shutdown (e.g. the caller's context): the loop has already registered the request, which then runs with nobody collecting its results or cancelling it"
+			}
+		}
+		c.Decide(rule, engine.FuncName(f)+"|awaits-reply", sel.Pos(), bad == "", "the caller waits for the run loop's reply; only rm.ctx.Done() interrupts", bad)
+	})
+	if n == 0 {
+		c.AnchorMissing(rule, "the select in NewRequest that receives the run loop's reply")
+	}
 }
